@@ -10,7 +10,7 @@
   The remaining half of the property — that the text parses back to that tree — is C06's round trip
   (proved there for strings; containers are compared on every case).
 -/
-import SonicModel.Lemmas.DomProof
+import SonicModel.Lemmas.DomValProof
 namespace Sonic.Thm.C19
 open Sonic Spec
 
